@@ -145,6 +145,8 @@ def check_stream(case, stats):
                 k += len(exp)
             if k != len(flat):
                 raise Violation(case, "generate_events printed %d envelopes, expected %d" % (len(flat), k))
+        if len(per_source) != len(exp_all):
+            raise Violation(case, "%d sources were listed (%s) but the stream handled %d" % (len(exp_all), case.get("api", "enum"), len(per_source)))
         seen_ids = set()
         for i, (got, exp) in enumerate(zip(per_source, exp_all)):
             ids = [int(x) for x in collect_ids([g for g in got if "source" not in g], [])]
